@@ -1,12 +1,12 @@
-\* C36 leg A quick: grid 0..8, <= 3 samples, values {1,2} or NaN, r = 3, numChunks 1..3
-\* 2 620 series x 3 chunk counts, all of them also go to the harness (leg B)
+\* C36 leg A quick: grid 0..8, <= 3 samples, values {1,2} or NaN, r = 3, numChunks {1,3}
+\* 2 620 series x 2 chunk counts, all of them also go to the harness (leg B)
 SPECIFICATION Spec
 CONSTANTS GridLen = 9
           MaxSamples = 3
           Vals = {1, 2}
           Tokens = {"NaN"}
           Resolutions = {3}
-          Counts = {1, 2, 3}
+          Counts = {1, 3}
           CaseSamples = 3
 INVARIANTS C36_EmittedExact C36_Done C37_Level1 StepsAgreeWithAlgoRaw AdjTableIsAdjDef
 PROPERTY AlwaysProgress
